@@ -23,7 +23,7 @@ theorem decodeLoop_alloc (step : Step) (input : List UInt8) : ∀ (fuel outputLe
         · exact ⟨rfl, Nat.le_refl _⟩
         · have := ih (L * 2) a ha
           exact ⟨this.1, by omega⟩
-      all_goals (try (split at ha)) <;> (try (split at ha)) <;>
+      all_goals (try (split at ha)) <;> (try (split at ha)) <;> (try (split at ha)) <;>
         (simp only [List.mem_singleton] at ha; subst ha; exact ⟨rfl, Nat.le_refl _⟩)
 
 theorem encodeLoop_alloc (step : Step) (n : Nat) : ∀ (fuel outputLen : Nat),
@@ -70,7 +70,7 @@ theorem decodeLoop_terminates (step : Step) (input : List UInt8) (need : Nat)
         · exact (hb L hbig hreset hrc).elim
         · have := ih (L * 2) (by omega) (by omega) (by omega)
           simpa using this
-      all_goals (try split) <;> (try split) <;> rfl
+      all_goals (try split) <;> (try split) <;> (try split) <;> rfl
 
 theorem encodeLoop_terminates (step : Step) (n : Nat) (need : Nat)
     (hb : ∀ told, need ≤ told → (step told).reset = none → (callBoth (4 * n) told (step told)).rc ≠ .e2big) :
@@ -126,14 +126,16 @@ theorem decodeLoop_ok (step : Step) (input : List UInt8) (fuel L : Nat)
     (hin : (callBoth input.length L (step L)).inLeft = 0)
     (hout : (callBoth input.length L (step L)).outLeft = L - (callBoth input.length L (step L)).buf.length)
     (hfit : (callBoth input.length L (step L)).buf.length ≤ L)
-    (k : Nat) (h4 : (callBoth input.length L (step L)).buf.length = 4 * k) :
+    (k : Nat) (h4 : (callBoth input.length L (step L)).buf.length = 4 * k)
+    (hvalid : (wchars (callBoth input.length L (step L)).buf).any (· > 0x10FFFF) = false) :
     (decodeLoop step input (fuel + 1) L).1 = .ok (wchars (callBoth input.length L (step L)).buf) := by
   have hp : L - (L - (callBoth input.length L (step L)).buf.length) = 4 * k := by omega
   simp only [decodeLoop, hreset, hrc, hin, hout, hp]
   have : 4 * k % 4 = 0 := by omega
   simp only [this, ne_eq, not_true_eq_false, if_false]
   have : 4 * k / 4 = k := by omega
-  rw [this, wchars_prefix k _ _ h4]
+  rw [this, wchars_prefix k _ _ h4, hvalid]
+  simp
 
 theorem encodeLoop_ok (step : Step) (n : Nat) (fuel L : Nat)
     (hreset : (step L).reset = none) (hrc : (callBoth (4 * n) L (step L)).rc = .ok)
@@ -169,7 +171,8 @@ structure ConvertsTo (step : Step) (inLen : Nat) (produced : List UInt8) (need :
     (step told).main.consumed = inLen ∧ (callBoth inLen told (step told)).buf = produced
 
 theorem decodeLoop_returns_produced (step : Step) (input : List UInt8) (produced : List UInt8) (need k : Nat)
-    (h : ConvertsTo step input.length produced need) (h4 : produced.length = 4 * k) :
+    (h : ConvertsTo step input.length produced need) (h4 : produced.length = 4 * k)
+    (hvalid : (wchars produced).any (· > 0x10FFFF) = false) :
     ∀ (fuel L : Nat), 1 ≤ L → 1 ≤ fuel → need < fuel + L →
       (decodeLoop step input fuel L).1 = .ok (wchars produced) := by
   intro fuel
@@ -181,7 +184,8 @@ theorem decodeLoop_returns_produced (step : Step) (input : List UInt8) (produced
     · obtain ⟨hreset, hrc, hcons, hbuf⟩ := h.big L hbig
       obtain ⟨_, _, _, hout, hin⟩ := callBoth_ok _ _ _ hrc
       have hfit : (callBoth input.length L (step L)).buf.length ≤ L := by rw [hbuf]; exact Nat.le_trans h.fits hbig
-      rw [decodeLoop_ok step input fuel L hreset hrc (by rw [hin, hcons]; omega) hout hfit k (by rw [hbuf]; exact h4), hbuf]
+      rw [decodeLoop_ok step input fuel L hreset hrc (by rw [hin, hcons]; omega) hout hfit k (by rw [hbuf]; exact h4)
+        (by rw [hbuf]; exact hvalid), hbuf]
     · obtain ⟨hreset, hrc⟩ := h.small L (by omega)
       rw [decodeLoop_e2big step input fuel L hreset hrc]
       exact ih (L * 2) (by omega) (by omega) (by omega)
@@ -255,7 +259,9 @@ theorem decodeLoop_error_span (step : Step) (input : List UInt8)
       · cases h
       · split at h
         · cases h
-        · split at h <;> cases h
+        · split at h
+          · cases h
+          · split at h <;> cases h
 
 /-- for encoding: with a whole UTF-32 unit (4 bytes) left unconsumed, `0 ≤ start < end = start + 1 ≤ len(input)` -/
 theorem encodeLoop_error_span (step : Step) (n : Nat)
